@@ -356,7 +356,10 @@ class Interp:
             val = self.ev_soft(st.value)
             ops = {ast.Add: lambda a, b: a + b, ast.Sub: lambda a, b: a - b, ast.Mult: lambda a, b: a * b, ast.Div: lambda a, b: a / b,
                    ast.FloorDiv: lambda a, b: a // b, ast.Mod: lambda a, b: a % b}
-            if isinstance(cur, Unknown) or isinstance(val, Unknown) or type(st.op) not in ops:
+            if isinstance(cur, list) and isinstance(st.op, ast.Add) and isinstance(val, (list, tuple, set, frozenset)):
+                cur.extend(val)  # list += iterable extends in place (aliases see it), whatever the iterable
+                new = cur
+            elif isinstance(cur, Unknown) or isinstance(val, Unknown) or type(st.op) not in ops:
                 new = Unknown("augassign")
             else:
                 try:
